@@ -30,6 +30,7 @@ INJECT_KANI = {
         "message/rpc/operation/mod.rs": [("verif_ops", "harness/netconf/ops.rs")],
         "message/hello.rs": [("verif_hello", "harness/netconf/hello.rs")],
         "session.rs": [("verif_session", "harness/netconf/session.rs")],
+        "capabilities.rs": [("verif_caps", "harness/netconf/caps.rs")],
         "transport/tls.rs": [("verif_tls", "harness/netconf/tls.rs")],
         "transport/junos_local.rs": [("verif_junos_local", "harness/netconf/junos_local.rs")],
         "transport/ssh.rs": [("verif_ssh", "harness/netconf/ssh.rs")],
@@ -39,6 +40,7 @@ INJECT_KANI = {
         "policies/mod.rs": [("verif_policies", "harness/agent/policies.rs")],
         "policies/fetch.rs": [("verif_fetch", "harness/agent/fetch.rs")],
         "task.rs": [("verif_task", "harness/agent/task.rs")],
+        "cli.rs": [("verif_cli", "harness/agent/cli.rs")],
         "netconf/mod.rs": [("verif_client", "harness/agent/client.rs")],
     },
 }
@@ -98,6 +100,7 @@ AGENT_TOML_KANI = """[package]
 name = "bgpfu-junos-agent"
 version = "0.1.0"
 edition = "2021"
+autobins = false
 
 [lib]
 name = "bgpfu_junos_agent"
@@ -106,17 +109,24 @@ path = "src/lib.rs"
 [dependencies]
 anyhow = "1"
 chrono = "0.4"
+clap = {{ version = "4", features = ["derive"] }}
+clap-verbosity-flag = "2"
 futures = {{ version = "0.3.30", default-features = false }}
 generic-ip = "0.1.1"
-rustls-pki-types = "1"
+rolling-file = "0.2"
+rustls-pemfile = "2"
+rustls-pki-types = {{ version = "1", features = ["std"] }}
+tracing-appender = "0.2.3"
+tracing-log = "0.2"
+ubyte = "0.10.4"
+tracing-subscriber = {{ version = "0.3", features = ["env-filter"] }}
 bgpfu-netconf = {{ path = "../netconf" }}
-bgpfu-lib = {{ package = "bgpfu-lite", path = "{models}/bgpfu-lite" }}
+bgpfu = {{ package = "bgpfu-lite", path = "{models}/bgpfu-lite" }}
 rpsl = {{ package = "rpsl-lite", path = "{models}/rpsl-lite" }}
 quick-xml = {{ path = "{models}/quick-xml" }}
 tokio = {{ path = "{models}/tokio" }}
 tracing = {{ package = "verif-tracing", path = "{models}/tracing" }}
 vcollections = {{ path = "{models}/vcollections" }}
-agent-cli-deps = {{ path = "{models}/agent-cli-deps" }}
 
 [lints.rust]
 unexpected_cfgs = {{ level = "allow", check-cfg = ['cfg(kani)'] }}
@@ -168,6 +178,7 @@ AGENT_TOML_NATIVE = """[package]
 name = "bgpfu-junos-agent"
 version = "0.1.0"
 edition = "2021"
+autobins = false
 
 [lib]
 name = "bgpfu_junos_agent"
@@ -306,7 +317,7 @@ def inject(out, crate, table, cfg, log):
             hp = os.path.join(VERIF, harness)
             if not os.path.exists(hp):
                 continue
-            extra.append(f'\n#[cfg({cfg})]\n#[allow(warnings, clippy::all, clippy::pedantic, clippy::nursery)]\n#[path = "{hp}"]\nmod {name};\n')
+            extra.append(f'\n#[cfg({cfg})]\n#[allow(warnings, clippy::all, clippy::pedantic, clippy::nursery)]\n#[path = "{hp}"]\npub(crate) mod {name};\n')
             log.append({"file": rel, "appended_mod": name, "harness": harness})
         if extra:
             with open(p, "a") as fh:
